@@ -129,7 +129,7 @@ def r_extend(v, prof):
         return False, 'panic'
     c2, r2 = o[:3], o[3]
     d = math.sqrt(np_dot(np_sub(x, c), np_sub(x, c)))
-    sc = np_scale([c, x, c2, [r]])
+    sc = max(abs(r), d)         # the statement is scale invariant: residuals are judged relative to the size of the configuration
     if r > 0 and d * d <= r * r * (1 + 1e-10):
         res = max(abs(r2 - r), max(abs(a - b) for a, b in zip(c, c2)))
         return res > TOL * sc, 'inside: sphere must be unchanged, residual %.3e' % res
@@ -157,7 +157,7 @@ REPLAYERS = {'intersect_planes': r_intersect, 'project_onto': r_project, 'projec
              'sphere4': r_sphere('sphere4'), 'sphere_extend': r_extend, 'insphere_float': r_insphere_float}
 
 
-def decide(run, kind, label, hyps, goal, variables, timeout=60):
+def decide(run, kind, label, hyps, goal, variables, timeout=60, prefer=None):
     """prove hyps => goal; on a counterexample, replay natively"""
     v, m = run.prove('C19 %s: %s' % (kind, label), hyps, z3.Not(goal), timeout=timeout, on_sat='caller',
                      sample={'function': kind, 'equation': label})
@@ -169,7 +169,16 @@ def decide(run, kind, label, hyps, goal, variables, timeout=60):
             return
     elif v != 'sat':
         return
-    m2 = nice_model(run, label, hyps, z3.Not(goal), variables) or m
+    m2 = nice_model(run, label, hyps, z3.Not(goal), variables)
+    if m2 is None and prefer:
+        # a counterexample that is far from the boundary of the violated condition replays robustly in floating point
+        s_ = z3.Solver()
+        s_.set('timeout', 20000)
+        for h in list(hyps) + list(prefer) + [z3.Not(goal)]:
+            s_.add(h)
+        if s_.check() == z3.sat:
+            m2 = s_.model()
+    m2 = m2 or m
     vals = model_floats(m2, variables)
     reproduced = None
     for prof in ('debug', 'release'):
@@ -292,19 +301,32 @@ def check(run):
         decide(run, 'sphere2', '|c-%s|^2 = r^2' % nm, H, zdot(vsub(ctr, pt), vsub(ctr, pt)) == to_z3(rad) * to_z3(rad), vs)
     decide(run, 'sphere2', 'centre is the midpoint, r >= 0', H, z3.And(veq(vadd(ctr, ctr), vadd(a, b)), to_z3(rad) >= 0), vs)
 
-    st, s = Call(run, funcs, r'::from_three_points$', [a, b, cc]).single()
     ab = cross(vsub(a, cc), vsub(b, cc))
     pre = [zdot(ab, ab) != 0]
-    H = pre + hyps_of(st)
-    ctr, rad = s.items[sph_c], s.items[sph_r]
+    c3 = Call(run, funcs, r'::from_three_points$', [a, b, cc], pre=pre)
     vs = all_vars(a, b, cc)
-    # radius = 0.5 * sqrt(X): the encoder substitutes r^2 = X/4 (one structural check, then polynomial identities)
-    sq, X = st.sqrts[-1]
-    decide(run, 'sphere3', 'radius = sqrt(X)/2 (structure of the radius term)', H, to_z3(rad) * 2 == sq, vs)
-    for nm, pt in (('a', a), ('b', b), ('c', cc)):
-        decide(run, 'sphere3', '|c-%s|^2 = r^2 (r^2 = X/4 substituted)' % nm, H, zdot(vsub(ctr, pt), vsub(ctr, pt)) * 4 == X, vs, timeout=120)
-    decide(run, 'sphere3', 'centre in the plane of the points', H, zdot(vsub(ctr, cc), ab) == 0, vs)
-    side_obligations(run, 'C19 sphere3', st, pre)
+    for pk, (st, s) in enumerate(c3.outs):
+        # every path of the function (a single one on the pinned tree) must satisfy the defining equations under its own path condition
+        H = pre + hyps_of(st)
+        ptag = '' if len(c3.outs) == 1 else ' [path %d]' % pk
+        ctr, rad = s.items[sph_c], s.items[sph_r]
+        # radius = 0.5 * sqrt(X): the encoder substitutes r^2 = X/4 (one structural check, then polynomial identities)
+        sq, X = st.sqrts[-1] if st.sqrts else (None, None)
+        structural = False
+        if sq is not None:
+            vstruct, _ = run.prove('C19 sphere3%s: radius = sqrt(X)/2 (structure of the radius term)' % ptag, H, z3.Not(to_z3(rad) * 2 == sq), timeout=30, on_sat='caller', cross=False)
+            structural = vstruct == 'unsat'
+            if not structural:
+                run.obligations.pop()
+        for nm, pt in (('a', a), ('b', b), ('c', cc)):
+            if structural:
+                decide(run, 'sphere3', '|c-%s|^2 = r^2 (r^2 = X/4 substituted)%s' % (nm, ptag), H, zdot(vsub(ctr, pt), vsub(ctr, pt)) * 4 == X, vs, timeout=120)
+            else:
+                decide(run, 'sphere3', '|c-%s|^2 = r^2%s' % (nm, ptag), H, zdot(vsub(ctr, pt), vsub(ctr, pt)) == to_z3(rad) * to_z3(rad), vs, timeout=120)
+        decide(run, 'sphere3', 'centre in the plane of the points%s' % ptag, H, zdot(vsub(ctr, cc), ab) == 0, vs)
+        side_obligations(run, 'C19 sphere3%s' % ptag, st, pre)
+    if not c3.outs:
+        run.inconclusive.append('Sphere::from_three_points: no normal path under the documented precondition')
 
     st, s = Call(run, funcs, r'::from_four_points$', [a, b, cc, d]).single()
     o3 = to_z3(dot(cross(vsub(b, a), vsub(cc, a)), vsub(d, a)))
@@ -326,12 +348,15 @@ def check(run):
     for st, s in c.outs:
         H = pre + hyps_of(st)
         ctr, rad = s.items[sph_c], s.items[sph_r]
-        inside = d2 <= r0 * r0 * z3.RealVal('10000000001') / z3.RealVal('10000000000')
-        # which branch is this?  decided by the solver: the path condition implies inside or not inside
-        vin, _ = run.prove('C19 sphere_extend path %d: is it the "contains" branch' % n_out, H, z3.Not(inside), timeout=30, on_sat='caller', cross=False, expect='unsat' if False else 'unsat')
+        # which branch is this?  classified by what the path RETURNS (decided by the solver), not by a formula copied from the code
+        vin, _ = run.prove('C19 sphere_extend path %d: does it return the sphere unchanged' % n_out, H, z3.Not(z3.And(veq(ctr, ctr0), to_z3(rad) == r0)), timeout=30,
+                           on_sat='caller', cross=False)
         run.obligations.pop()      # classification query, not an obligation
         if vin == 'unsat':
-            decide(run, 'sphere_extend', 'x inside: sphere unchanged', H, z3.And(veq(ctr, ctr0), to_z3(rad) == r0), vs)
+            # unchanged is right only if x is inside the sphere (documented relative tolerance 1e-10 on r^2; 1e-9 granted here)
+            decide(run, 'sphere_extend', 'sphere returned unchanged only if x is inside it: |x-c|^2 <= r^2 (1 + 1e-9)', H,
+                   d2 <= r0 * r0 * z3.RealVal('1000000001') / z3.RealVal('1000000000'), vs,
+                   prefer=[d2 >= 4 * r0 * r0] + [to_z3(t) == 0 for t in ctr0.items] + [to_z3(x.items[1]) == 0, to_z3(x.items[2]) == 0])
         else:
             dd = z3.Real('dist')
             Hd = H + [dd >= 0, dd * dd == d2]
